@@ -73,6 +73,25 @@ func c08After(w *World, path []fsx.Op, r fsx.Reply, implFail bool, mis *reffs.Mi
 			}
 		}
 	}
+	// a dead handle whose inode number is in use again, together with the live handle of that number
+	for _, dfh := range dead {
+		for _, lfh := range live {
+			if dfh[:16] != lfh[:16] || w.Model.Objs[w.Model.ByFH[lfh]].Kind != reffs.DIR {
+				continue
+			}
+			for _, p := range []fsx.Op{
+				{K: "RENAME", H: "raw:" + lfh, N: "a", H2: "raw:" + dfh, N2: "probe-x1"},
+				{K: "RENAME", H: "raw:" + dfh, N: "a", H2: "raw:" + lfh, N2: "probe-x2"},
+				{K: "LINK", H: "raw:" + lfh, H2: "raw:" + dfh, N2: "probe-x3"},
+			} {
+				rr, _, m := w.Do(p)
+				if m != nil {
+					viol("dead-handle-same-inum|"+p.K+"|"+m.Rule, fmt.Sprintf("%s (dead handle %s, live handle %s of the same inode number): %s (reply %s)", p, dfh, lfh, m.Msg, rr.Brief()))
+					return
+				}
+			}
+		}
+	}
 	after, _ := fsx.Dump(w.Srv, w.Probe)
 	if fsx.DumpString(before) != fsx.DumpString(after) {
 		viol("dead-handle|effect", "requests carrying only dead handles changed the file system")
